@@ -254,6 +254,28 @@ func creation(c *mon.Ctx, r *gen.Rand) {
 	if p == nil || p[0] != 0x47 || p.PID() != pid || p.ContinuityCounter() != int(cc) || p.HasPayload() != hasPay || (hasPay && p.PayloadUnitStartIndicator() != pusi) {
 		c.Fail("create:CreateTestPacket", fmt.Sprintf("CreateTestPacket(pid=%d, cc=%d, pusi=%v, hasPay=%v) does not carry the requested sync/PID/counter/flags", pid, cc, pusi, hasPay), w(p, ""))
 	}
+	// the helpers are asked for the same packet again after the first one was put to use (its PID, counter,
+	// flags and payload changed): the second one is again the one requested
+	if p != nil {
+		first := *p
+		p.SetPID((pid + 1 + r.Intn(8000)) & 0x1fff)
+		p.SetContinuityCounter(int(cc+1+uint8(r.Intn(14))) & 15)
+		p.SetTransportScramblingControl(packet.ScrambleEvenKeyFlag)
+		if hasPay {
+			p.SetPayload(r.Bytes(1 + r.Intn(100)))
+		}
+		again := packet.CreateTestPacket(pid, cc, pusi, hasPay)
+		c.Count("create.same_request_again")
+		if again == nil || *again != first {
+			c.Fail("create:CreateTestPacket-again", fmt.Sprintf("a second CreateTestPacket(pid=%d, cc=%d, pusi=%v, hasPay=%v), made after the first result had been modified, does not return the same packet as the first call did", pid, cc, pusi, hasPay), w(again, "first result was "+mon.Hex(first[:])))
+		}
+		for _, q := range []*packet.Packet{packet.CreateDCPacket(pid, cc), packet.CreatePacketWithPayload(pid, cc, []byte{1, 2, 3}), packet.Create(pid)} {
+			if q != nil {
+				q.SetPID(0x1abc)
+				q[10] ^= 0xff
+			}
+		}
+	}
 	p = packet.CreateDCPacket(pid, cc)
 	if p == nil || p[0] != 0x47 || p.PID() != pid || p.ContinuityCounter() != int(cc) || !p.HasPayload() {
 		c.Fail("create:CreateDCPacket", fmt.Sprintf("CreateDCPacket(pid=%d, cc=%d) does not carry the requested sync/PID/counter/payload flag", pid, cc), w(p, ""))
